@@ -248,6 +248,9 @@ def _iter_concrete(w):
             tree = TREE
             exp = mpt.all_nodes(tree)
             if tree is None:
+                if len(got) == 0:
+                    COUNTERS["paths"] += 1
+                    return True          # an empty trie has no nodes; yielding nothing is as good as yielding the blank root once
                 exp = [((), None)]       # the blank root is yielded once
             if [tuple(p) for p, _n in got] != [p for p, _n in exp]:
                 return _fail(f"nodes() prefixes {[tuple(p) for p, _ in got]} differ from the pre-order of the canonical trie {[p for p, _ in exp]}")
@@ -504,7 +507,7 @@ MAXP = 4      # positions / withheld-subset bits considered (quick 4, thorough 6
 
 
 def _pre_forge(qi, kind, a, mask, other_root):
-    if not (0 <= qi < len(PROOF_QS) and 0 <= kind <= 3 and 0 <= a < MAXP and 0 <= mask < 2 ** MAXP):
+    if not (0 <= qi < len(PROOF_QS) and 0 <= kind <= 4 and 0 <= a < MAXP and 0 <= mask < 2 ** MAXP):
         return False
     if kind == 0:
         return a == 0                        # withhold-only: every subset
@@ -518,10 +521,35 @@ def h_forge(qi: int, kind: int, a: int, mask: int, other_root: bool) -> bool:
     post: _
     """
     from vf.xutil import notrace, pick
-    qi, kind, a, mask = pick(qi, len(PROOF_QS)), pick(kind, 4), pick(a, MAXP), pick(mask, 2 ** MAXP)
+    qi, kind, a, mask = pick(qi, len(PROOF_QS)), pick(kind, 5), pick(a, MAXP), pick(mask, 2 ** MAXP)
     other_root = bool(other_root)
     with notrace():
         return _forge_concrete(qi, kind, a, mask, other_root)
+
+
+def _altered(node):
+    node = list(node) if isinstance(node, (list, tuple)) else node
+    if not isinstance(node, list):
+        return node
+    if len(node) == 17:
+        out = list(node)
+        if out[16]:
+            out[16] = bytes(out[16]) + b"!"                 # another value on the branch
+        else:
+            for i in range(16):
+                if isinstance(out[i], bytes) and len(out[i]) == 32:
+                    out[i] = bytes(32)                      # a child pointer to nowhere
+                    break
+            else:
+                out[16] = b"!"
+        return out
+    if len(node) == 2:
+        key, val = node
+        if isinstance(val, bytes) and len(val) == 32 and (bytes(key)[0] >> 4) in (0, 1):
+            return [key, bytes(32)]                         # extension pointing elsewhere
+        if isinstance(val, bytes):
+            return [key, bytes(val) + b"!"]                 # leaf with another value
+    return node
 
 
 def _forge_concrete(qi, kind, a, mask, other_root):
@@ -541,6 +569,8 @@ def _forge_concrete(qi, kind, a, mask, other_root):
         proof.append(proof[a % n])
     elif kind == 3 and n >= 1:                    # node taken from the proof of the same key in another trie
         proof[a % n] = foreign[a % len(foreign)]
+    elif kind == 4 and n >= 1:                    # altered node: still well formed, different content
+        proof[a % n] = _altered(proof[a % n])
     proof = [nd for i, nd in enumerate(proof) if not (mask >> i) & 1]      # withhold any subset
     if other_root:
         root, model = root2, m2
